@@ -57,11 +57,25 @@ def make_plan(engine, st, it):
                 items.append(u)
             yield st, Plan("static", items=items)
         else:
-            yield st, Plan("seq", n=ln, get=lambda s, i: engine.unboxed(s, arr[i], elem))
+            src_set = it.origin[1] if (it.origin is not None and it.origin[0] == "set") else None
+
+            def get(s, i, arr=arr, elem=elem, src_set=src_set):
+                if src_set is not None:
+                    # an enumeration of a set: the element at any valid index is a member (ground instance)
+                    s = s.with_facts([z3.simplify(src_set[arr[i]])])
+                return engine.unboxed(s, arr[i], elem)
+
+            yield st, Plan("seq", n=ln, get=get)
     elif k == "set":
-        x = S.fresh("el", V)
         elem = it.ty.elem if isinstance(it.ty, TSet) else TAny
-        yield st, Plan("setlike", vars=[x], mem=it.t[x], decode=lambda s: engine.unboxed(s, x, elem), key=x)
+        ps = S.pair_set_body(it.t)
+        if ps is not None:
+            # a set of pairs: two bound variables (relation form) instead of one pair-valued variable
+            a, b, body = ps
+            yield st, Plan("setlike", vars=[a, b], mem=body, decode=lambda s: engine.unboxed(s, V.pair(a, b), elem), key=V.pair(a, b))
+        else:
+            x = S.fresh("el", V)
+            yield st, Plan("setlike", vars=[x], mem=it.t[x], decode=lambda s: engine.unboxed(s, x, elem), key=x)
     elif k == "dict":
         x = S.fresh("key", V)
         kt = it.ty.k if isinstance(it.ty, TDict) else TAny
@@ -157,12 +171,19 @@ def assigned_names(nodes):
     return out
 
 
+MUTATING_METHODS = {
+    "append", "add", "update", "pop", "clear", "setdefault", "extend", "insert", "remove", "discard", "popitem", "sort", "reverse",
+    "add_node", "add_edge", "remove_node", "remove_edge", "add_nodes_from", "add_edges_from", "remove_nodes_from", "remove_edges_from",
+    "intersection_update", "difference_update", "symmetric_difference_update",
+}
+
+
 def mutated_locals(nodes):
-    """locals that are the receiver of a method call (possible in-place mutation) or of a subscript store"""
+    """locals that are the receiver of a mutating method call or of a subscript / attribute store"""
     out = set()
     for n in nodes:
         for sub in ast.walk(n):
-            if isinstance(sub, ast.Call) and isinstance(sub.func, ast.Attribute):
+            if isinstance(sub, ast.Call) and isinstance(sub.func, ast.Attribute) and sub.func.attr in MUTATING_METHODS:
                 base = sub.func.value
                 while isinstance(base, (ast.Attribute, ast.Subscript)):
                     base = base.value
@@ -196,7 +217,9 @@ def exec_for(engine, n, st):
                 yield from _unroll_static(engine, n, st2, plan.items, 0)
             else:
                 spec = engine.loop_spec(n, st2)
-                if spec is not None and engine.mode == "prove":
+                if spec is not None and engine.mode == "prove" and spec.unroll is not None:
+                    yield from _unroll_exact(engine, n, st2, plan, spec)
+                elif spec is not None and engine.mode == "prove":
                     yield from _invariant_rule(engine, n, st2, plan, spec)
                 elif engine.mode == "refute" or getattr(engine, "allow_bounded_loops", False):
                     engine.bounded_loops = getattr(engine, "bounded_loops", 0) + 1
@@ -231,6 +254,36 @@ def _unroll_static(engine, n, st, items, idx):
                 yield from _after_loop(engine, n, st2, True)
             else:
                 yield st2, out
+
+
+def _unroll_exact(engine, n, st, plan, spec):
+    """Exact unrolling justified by an OBLIGATION that the iterable has at most K elements (no invariant needed)."""
+    K = spec.unroll
+    fq = st.frame.fq or st.frame.func.fq
+    ordinal = engine.loop_ordinal(n, st)
+    if plan.kind == "seq":
+        goal = plan.n <= K
+    else:
+        # no K+1 pairwise distinct members
+        insts = []
+        conds = []
+        keys = []
+        for i in range(K + 1):
+            fv = [S.fresh("m", V) for _ in plan.vars]
+            sub = list(zip(plan.vars, fv))
+            insts.extend(fv)
+            conds.append(z3.substitute(plan.mem, *sub))
+            keys.append(z3.substitute(plan.key, *sub))
+        distinct = [keys[i] != keys[j] for i in range(K + 1) for j in range(i + 1, K + 1)]
+        goal = z3.ForAll(insts, Not(And(*(conds + distinct))))
+    engine.oblige(st, goal, f"{fq}:loop{ordinal}:at_most_{K}_elements", kind="loop-bound", func=fq, clause=f"loop{ordinal}.at_most_{K}_elements", props=_cprops(engine, fq, f"loop{ordinal}"))
+    saved = engine.unroll
+    engine.unroll = K
+    try:
+        results = list(_unroll_bounded(engine, n, st.assume(goal), plan))
+    finally:
+        engine.unroll = saved
+    yield from results
 
 
 def _unroll_bounded(engine, n, st, plan):
@@ -388,6 +441,7 @@ def _invariant_rule(engine, n, st, plan, spec):
     for name, text in spec.inv.items():
         g, sth = spec_bool(engine, text, sth, extra=envi, loop_entry=entry)
         sth = sth.assume(g)
+    iter_start = sth
     if engine.feasible(sth):
         for st1, e in engine.assign_to(n.target, cur, sth):
             if isinstance(e, Raised):
@@ -403,6 +457,9 @@ def _invariant_rule(engine, n, st, plan, spec):
                     for name, text in spec.inv.items():
                         g, stg = spec_bool(engine, text, st2, extra=envn, loop_entry=entry)
                         engine.oblige(stg, g, f"{fq}:loop{ordinal}:inv.{name}:preserved:{len(engine.obligs)}", kind="loop-preserve", func=fq, clause=f"loop{ordinal}.inv.{name}.preserved", props=_cprops(engine, fq, f"loop{ordinal}"))
+                    for name, text in spec.step.items():
+                        g, stg = spec_bool(engine, text, st2, extra=envn, loop_entry=entry, iter_start=iter_start)
+                        engine.oblige(stg, g, f"{fq}:loop{ordinal}:step.{name}:{len(engine.obligs)}", kind="loop-step", func=fq, clause=f"loop{ordinal}.step.{name}", props=_cprops(engine, fq, f"loop{ordinal}.step.{name}"))
                 elif out.kind == "break":
                     _check_undeclared_heap(engine, sth, st2, fields, n, fq, spec, entry)
                     yield from _after_loop(engine, n, st2, True)
@@ -429,6 +486,10 @@ def _cprops(engine, fq, clause):
 
 
 def _all_keys(plan):
+    inv = _invert(plan.key, list(plan.vars))
+    if inv is not None:
+        y, g, sub = inv
+        return z3.Lambda([y], And(g, z3.substitute(plan.mem, *sub)))
     y = S.fresh("y", V)
     return z3.Lambda([y], z3.Exists(plan.vars, And(plan.mem, plan.key == y)))
 
